@@ -8,7 +8,7 @@ import time
 
 from pyvc import verify
 from bounded import gen
-from .common import ctx, std, contract_samples, json_args_obligation
+from .common import ctx, std, contract_samples, json_args_obligation, history_samples
 
 KINDS = ["composeinfo", "images", "rpms", "modules", "extra_files", "treeinfo"]
 
@@ -148,6 +148,7 @@ def check(run):
     verify.verify(run, c.E, c.contracts["rt:composeinfo.Variants:1"], only=("layered_product_release_written_as_layered",
                                                                            "only_nonempty_paths_of_own_arches_written"), crosscheck=False)
     hashseeds(run, c)
+    history_samples(run, c, [k for k in sorted(c.contracts) if k.startswith("gen:")])
     run.assume("A1: json.dump with sort_keys=True is independent of dict insertion order; A2: ConfigParser.write emits in the dict_type's order")
     run.note("sorted-output clauses are proved for collections of TWO symbolic elements under every iteration/insertion order (bounded in size, "
              "unbounded in values); larger collections, hash seeds and repeated dumps: bounded stand-in in separate interpreter processes")
